@@ -28,6 +28,7 @@ type labCfg struct {
 	LogPlugin bool     `json:"logging_plugin"`
 	LogLevel  string   `json:"logging_level,omitempty"`
 	LogFormat string   `json:"logging_format,omitempty"`
+	Guards    []string `json:"protections_configured,omitempty"` // circuit_breaker / rate_limit / passive_checks / active_checks, each configured so that it cannot act (applyGuards)
 }
 
 type exchangeCase struct {
@@ -39,6 +40,24 @@ type exchangeCase struct {
 }
 
 var basePathChoices = []string{"", "", "/api", "/api/", "/b/c", "/api?src=lb"}
+
+// applyGuards switches on the protections drawn for this lab, each configured so that it cannot act within a
+// lab's lifetime (thresholds and budgets of a million, probes once an hour): an exchange that reaches a healthy
+// backend is relayed unchanged whether or not they are configured.
+func (c labCfg) applyGuards(cfg *config.Config) {
+	for _, g := range c.Guards {
+		switch g {
+		case "circuit_breaker":
+			cfg.CircuitBreaker = config.CircuitBreakerConfig{Enabled: true, MaxRequests: 1000000, IntervalSeconds: 60, TimeoutSeconds: 60, FailureThreshold: 1000000, SuccessThreshold: 1}
+		case "rate_limit":
+			cfg.RateLimit = config.RateLimitConfig{Enabled: true, MaxTokens: 1000000, RefillRate: 1}
+		case "passive_checks":
+			cfg.HealthChecks.Passive = config.PassiveHealthCheckConfig{Enabled: true, UnhealthyThreshold: 1000000, UnhealthyTimeout: 30}
+		case "active_checks":
+			cfg.HealthChecks.Active.Enabled, cfg.HealthChecks.Active.Interval, cfg.HealthChecks.Active.Timeout, cfg.HealthChecks.Active.Path = true, 3600, 5, "/healthz"
+		}
+	}
+}
 
 func genLab(t *rapid.T) labCfg {
 	c := labCfg{Strategy: rapid.SampledFrom(lab.Strategies).Draw(t, "strategy"), Backends: rapid.IntRange(1, 3).Draw(t, "backends")}
@@ -55,6 +74,14 @@ func genLab(t *rapid.T) labCfg {
 	// shares one process-global logger and takes no notice of it
 	c.LogLevel = rapid.SampledFrom([]string{"", "", "info", "debug", "debug", "warn", "error", "fatal"}).Draw(t, "loglevel")
 	c.LogFormat = rapid.SampledFrom([]string{"", "json", "text", "console"}).Draw(t, "logformat")
+	// protections that may be configured next to the proxy (see applyGuards); half of the labs have none
+	if rapid.Bool().Draw(t, "guards") {
+		for _, g := range []string{"circuit_breaker", "rate_limit", "passive_checks", "active_checks"} {
+			if rapid.Bool().Draw(t, g) {
+				c.Guards = append(c.Guards, g)
+			}
+		}
+	}
 	return c
 }
 
@@ -508,6 +535,7 @@ func TestC01Transparency(t *testing.T) {
 			cfg.Logging.RequestID.Enabled, cfg.Logging.Trace.Enabled = lc.ReqID, lc.Trace
 			cfg.Logging.RequestID.Header, cfg.Logging.Trace.Header = lc.ReqIDHdr, lc.TraceHdr
 			cfg.Logging.Level, cfg.Logging.Format = lc.LogLevel, lc.LogFormat
+			lc.applyGuards(cfg)
 			if lc.LogPlugin {
 				cfg.Plugins.Enabled = true
 				cfg.Plugins.Chain = []config.PluginConfig{{Name: "logging"}}
@@ -553,6 +581,9 @@ func TestC01Transparency(t *testing.T) {
 				sub.Excluded("304-content-type-dropped")
 			}
 			labels := append([]string{lc.Strategy, "status-" + fmt.Sprint(ec.Resp.Status/100) + "xx", "resp-" + ec.Resp.Framing}, ec.labels...)
+			for _, g := range lc.Guards {
+				labels = append(labels, "configured:"+g)
+			}
 			if binary {
 				labels = append(labels, "front=helios-binary")
 				if lc.LogLevel == "debug" {
